@@ -27,6 +27,7 @@ var debugOps = os.Getenv("SIM_DEBUG") != ""
 // "ab" is a string prefix-extension of "a": code that matches paths by string prefix instead of
 // by segment is exposed
 var poolNames = []string{"a", "b", "c", "ab"}
+var exoticNames = []string{"x.y", "...", "a b", "é", ".hid"}
 
 // spell renders a normalised path in one of the spellings the quantifier names; it never
 // climbs above the root.
@@ -69,6 +70,11 @@ func poolPath(r *Rand, maxDepth int) []string {
 	}
 	var segs []string
 	for i := 0; i < d; i++ {
+		if r.Chance(1, 25) {
+			// unusual but legal names: dots that are not '.'/'..', a blank, a non-ASCII letter
+			segs = append(segs, exoticNames[r.Intn(len(exoticNames))])
+			continue
+		}
 		segs = append(segs, poolNames[r.Intn(len(poolNames))])
 	}
 	return segs
@@ -107,6 +113,9 @@ func genFsOps(r *Rand, n int, extra []string, plainSpelling bool, gm *ModelTree)
 			op.Data = fmt.Sprintf("#%d:%s", i, strings.Repeat("x", r.Pick(0, 0, 1, 3, 17, 64)))
 			if r.Chance(1, 10) {
 				op.Data = ""
+			}
+			if r.Chance(1, 15) {
+				op.Data += "\x00é\n\"q\"" // a NUL, a non-ASCII letter, a newline, quotes
 			}
 			if r.Chance(1, 25) && op.Data != "" {
 				op.Big = r.Pick(4096, 33000, 70000) // past buffer, page and "large file" thresholds
